@@ -631,3 +631,37 @@ mutual
 end
 
 end Pg.C05
+
+namespace Pg.C05
+
+/-! ### `auto_dict=True` (json_conversion.py:545-549): a dict whose `_type` names no loadable class
+stays a dict, with `_type` renamed to `type_name` -/
+
+def typeNameKey : Str := "type_name".toList
+
+mutual
+  def autoDict (env : ClassEnv) : JV → JV
+    | .arr xs => .arr (autoDictL env xs)
+    | .obj kvs =>
+      match jlookup (.s typeKey) kvs with
+      | some (.str c) =>
+        if (env.find c).isSome then .obj (autoDictKV env kvs)
+        else
+          -- `v['type_name'] = type_name; v.pop('_type')`, then the children are visited
+          .obj (dsetK (.s typeNameKey) (.str c) ((autoDictKV env kvs).filter (fun p => p.1 != .s typeKey)))
+      | some _ => .obj kvs                       -- `_type` not a string: skipped with its children
+      | none => .obj (autoDictKV env kvs)
+    | j => j
+  def autoDictL (env : ClassEnv) : List JV → List JV
+    | [] => []
+    | x :: xs => autoDict env x :: autoDictL env xs
+  def autoDictKV (env : ClassEnv) : List (Key × JV) → List (Key × JV)
+    | [] => []
+    | (k, x) :: xs => (k, autoDict env x) :: autoDictKV env xs
+end
+
+/-- `pg.from_json(j, allow_partial=ap, auto_dict=True)`. -/
+def fromJsonAuto (env : ClassEnv) (ap : Bool) (j : JV) : Except Err Tree :=
+  fromJ env ap (autoDict env j)
+
+end Pg.C05
